@@ -615,7 +615,8 @@ class Simplifier:
                         # references here, so nothing is evaluated twice or out of turn)
                         body = copy.deepcopy(hb[0].value)
                         free = free_names(body) - {nm for nm, _a in binds} - ({h.posparams[0]} if bound and h.posparams else set())
-                        if not (free & local):
+                        is_local_fn = '.<locals>.' in h.qn and h.qn.rsplit('.<locals>.', 1)[0] == me.qn
+                        if is_local_fn or not (free & local):      # (a local function reads the caller's own variables)
                             m = dict(binds)
                             if bound and h.posparams:
                                 m[h.posparams[0]] = ast.Name('self', ast.Load())
@@ -740,7 +741,7 @@ class Simplifier:
                 h = self.p.funcs.get(sy.target)
         elif isinstance(fn, ast.Name):
             # a local function of this function: defined once in its body, before the call, and only ever called
-            defs = [d for d in self.f.body if isinstance(d, ast.FunctionDef) and d.name == fn.id]
+            defs = [d for d in _own(self.f) if isinstance(d, ast.FunctionDef) and d.name == fn.id]
             if len(defs) == 1 and stores(self.f).get(fn.id) == 1 and self._defined_before(defs[0], call) and not defs[0].decorator_list \
                     and not defs[0].args.defaults and not defs[0].args.kw_defaults:
                 refs = [n for n in ast.walk(self.f) if isinstance(n, ast.Name) and n.id == fn.id]
@@ -818,10 +819,14 @@ class Simplifier:
         return True
 
     def _defined_before(self, d, call):
-        i = self.f.body.index(d)
-        for j, st in enumerate(self.f.body):
-            if any(x is call for x in ast.walk(st)):
-                return i < j
+        """the call stands in a statement that follows the def in the def's own block (so the def has run whenever the call does)"""
+        for owner in ast.walk(self.f):
+            blocks = [getattr(owner, fld, None) for fld in ('body', 'orelse', 'finalbody')]
+            blocks += [h.body for h in getattr(owner, 'handlers', []) or []]
+            for blk in blocks:
+                if isinstance(blk, list) and any(b is d for b in blk):
+                    i = [k for k, b in enumerate(blk) if b is d][0]
+                    return any(any(x is call for x in ast.walk(st)) for st in blk[i + 1:])
         return False
 
     def _pure(self, e, local):
@@ -1643,9 +1648,8 @@ class Simplifier:
                 self.drop_dead_stores(lc)
             # a local function nothing refers to any more
             used = {n.id for n in ast.walk(self.f) if isinstance(n, ast.Name)}
-            keep = [d for d in self.f.body if not (isinstance(d, ast.FunctionDef) and d.name not in used and any(q.endswith('.' + d.name) for q in self.via))]
-            if len(keep) != len(self.f.body) and keep:
-                self.f.body = keep
+            for d in [d for d in _own(self.f) if isinstance(d, ast.FunctionDef) and d.name not in used and any(q.endswith('.' + d.name) for q in self.via)]:
+                self._drop(d)
                 self.changed = True
             if not self.changed:
                 break
